@@ -17,4 +17,5 @@ INVARIANT InvDebug
 INVARIANT InvBase
 INVARIANT CreatedAreDocumented
 PROPERTY PassThroughLaw
+PROPERTY TransparentLaw
 CHECK_DEADLOCK FALSE
